@@ -215,6 +215,9 @@ def run(prop, tier, work):
                     report(v, work, "C08", key, c, o, names, "certain acceptance reported: %r" % o["diag"][:1])
         if prop == "C14":
             check_kw_order(v, work, stats, cases, names, obs, checked)
+    sweepinfo = None
+    if prop in ("C07", "C08"):
+        sweepinfo = config_sweep(work, stats, v, prop, tier)
     corpus = None
     if prop in ("C07", "C08"):
         corpus = corpus_bind_validation(work, stats, v, prop, 150 if tier == "quick" else 585)
@@ -226,7 +229,7 @@ def run(prop, tier, work):
     cov = {"states": stats["states"], "transitions": stats["transitions"],
            "traces_validated_against_impl": bound, "real_runs": stats["runs"], "call_rows": stats["rows"],
            "judged": dict(checked), "model_drift_cases": drift, "selftests": selftests, "notes": v.notes,
-           "universes": universes, "exhaustive": True, "corpus_bind_events": corpus,
+           "universes": universes, "exhaustive": True, "corpus_bind_events": corpus, "shipped_config_sweep": sweepinfo,
            "rule": "every (declaration, call) of the bounded universe enumerated by TLC; one source row per case in a "
                    "generated configuration; the bind event of each row must show the intended declaration and arguments"}
     return v.finish("model_checking", cov, assumptions=[
@@ -428,3 +431,54 @@ def replay(prop, work, path):
     rr = C.confirm_alone(work, {"cfg": cfgd, "files": files, "args": ["t.rb"]}, runs=1)[0]
     print(rr.get("out"))
     return 0
+
+
+def config_sweep(work, stats, v, prop, tier):
+    """every understood instance method of the shipped configuration, judged by TLC, replayed into ti"""
+    from . import confsweep as S
+    out = S.sweep(work, stats, C.SHIPPED_CFG)
+    judged = 0
+    for o in out:
+        if prop == "C07" and o["mf"]:
+            judged += 1
+            if o["diag"]:
+                continue
+            if o["failed"]:
+                key = "crash-instead-of-diagnostic:%s" % RC_short(o["failure"])
+            elif o["asis"] != "ok":
+                key = "Dev_StrategyIgnoresDeclaration:%s#%s" % (o["cls"], o["meth"])
+            else:
+                key = "sweep-missed-error:%s#%s/%s" % (o["cls"], o["meth"], o["kind"])
+            what = "shipped config, %s#%s, %s: `%s` certainly fails but ti reports nothing on its row%s" % (
+                o["cls"], o["meth"], o["kind"], o["src"], (" (" + o["failure"] + ")") if o["failed"] else "")
+        elif prop == "C08" and o["mp"]:
+            judged += 1
+            if o["diag"] == []:
+                continue
+            if o["failed"]:
+                key = "crash-on-accepted-call:%s" % RC_short(o["failure"])
+            elif o["asis"] == "ok":
+                key = "Dev_StrategyOwnCheck:%s#%s" % (o["cls"], o["meth"])
+            else:
+                key = "sweep-false-alarm:%s#%s/%s" % (o["cls"], o["meth"], o["kind"])
+            what = "shipped config, %s#%s, %s: `%s` is certainly accepted but ti says %r" % (
+                o["cls"], o["meth"], o["kind"], o["src"], o["diag"])
+        else:
+            continue
+        if key in v.known or key in _reported:
+            v.count("known_finding_hits" if key in v.known else "repeat_of_reported_key")
+            continue
+        job, rr, diag = S.run_alone(work, o)
+        crashed = bool(rr.get("panic")) or rr.get("timeout")
+        still = (prop == "C07" and not diag) or (prop == "C08" and (diag or crashed))
+        if not still:
+            v.count("not_reproduced_alone")
+            continue
+        _reported.add(key)
+        v.fail(key, what, C.job_files_for_replay(job), detail={"alone_out": rr.get("out"), "stderr": (rr.get("stderr") or "")[:400]})
+    return {"methods": stats.get("sweep_methods"), "cases": stats.get("sweep_cases"), "judged_for_this_property": judged,
+            "methods_not_understood": stats.get("sweep_methods_not_understood")}
+
+
+def RC_short(f):
+    return (f or "?").replace("ti/", "").replace("(*", "").replace(")", "")
